@@ -1267,6 +1267,11 @@ func (r *Raft) election() {
 func (r *Raft) sendRequestVoteToPeers() {
 	// Handle the single node cluster case.
 	if r.isSingleServerCluster() {
+		// There is nobody to ask for a prevote: hold the real election, which
+		// increments the term and persists the vote, before leading.
+		if r.state == PreCandidate {
+			r.becomeCandidate()
+		}
 		r.becomeLeader()
 		return
 	}
